@@ -508,6 +508,11 @@ func VerifyAccess(ctx context.Context, be backend.Backend, opts AccessOptions) e
 }
 
 func VerifyObjectCopyAccess(ctx context.Context, be backend.Backend, copySource string, opts AccessOptions) error {
+	// a copy always writes the destination: refuse it in read-only mode
+	// for every caller, before the root/admin shortcuts below
+	if opts.Readonly {
+		return s3err.GetAPIError(s3err.ErrAccessDenied)
+	}
 	if opts.IsRoot {
 		return nil
 	}
